@@ -99,6 +99,7 @@ func evalFlatten(c *Case) *Verdict {
 	v.count("optset_"+c.Opts.String(), 1)
 	outs := map[uint64]bool{}
 	for si, sched := range c.Schedules {
+		heartbeat()
 		o := runFlatten(c, sched, nil, nil)
 		addObs(v, o)
 		if o.Stats.Perturbed2 > 0 || sched.KeyPerm != 0 {
